@@ -74,3 +74,31 @@ def abuf(n, align=64):
     addr = ctypes.addressof(raw); off = (-addr) % align
     arr = (ctypes.c_uint64 * n).from_address(addr + off); arr._keep = raw
     return arr
+
+def forked(fn, timeout=120):
+    """run fn() in a forked child (native code that may crash); returns ('ok', value) | ('signal', n) | ('exit', code) | ('timeout', None)"""
+    import pickle, signal, select
+    r, w_ = os.pipe(); pid = os.fork()
+    if pid == 0:
+        os.close(r)
+        try:
+            devnull = os.open(os.devnull, os.O_WRONLY); os.dup2(devnull, 2)
+            v = fn(); os.write(w_, pickle.dumps(v)); os._exit(0)
+        except BaseException as e:
+            try: os.write(w_, pickle.dumps(('pyexc', repr(e))))
+            except Exception: pass
+            os._exit(3)
+    os.close(w_); data = b''; t0 = time.time()
+    while True:
+        rl, _, _ = select.select([r], [], [], 1.0)
+        if rl:
+            chunk = os.read(r, 1 << 20)
+            if not chunk: break
+            data += chunk
+        if time.time() - t0 > timeout:
+            os.kill(pid, signal.SIGKILL); os.waitpid(pid, 0); os.close(r); return ('timeout', None)
+    os.close(r); _, st = os.waitpid(pid, 0)
+    if os.WIFSIGNALED(st): return ('signal', os.WTERMSIG(st))
+    code = os.WEXITSTATUS(st)
+    if code == 0 and data: return ('ok', pickle.loads(data))
+    return ('exit', code)
